@@ -36,6 +36,9 @@ IsByteSeq(s) == \A i \in 1..Len(s) : s[i] \in 0..255
 SetMin(S) == CHOOSE x \in S : \A y \in S : x <= y
 SetMax(S) == CHOOSE x \in S : \A y \in S : x >= y
 BigAddr == 1073741824        \* 2^30: all modelled addresses stay below
+\* values read from an observed text may be larger: they saturate at BigAddr instead of overflowing TLC's integers
+BEsat(s) == IF Len(s) = 4 /\ s[1] >= 64 THEN BigAddr ELSE BE(s)
+MulSat(a, mul) == IF a >= BigAddr \div mul THEN BigAddr ELSE a * mul
 
 Formats == {"MOTO", "INTEL", "INTEL16", "INTEL32", "MOS", "TEK", "ATMEL", "C", "DSK", "MICO8"}
 
@@ -70,7 +73,7 @@ SRecValid(ln) ==
   /\ ln.b[1] = Len(ln.b) - 1                          \* count field
   /\ SumSeq(ln.b) % 256 = 255                          \* count + address + data + checksum = $FF
   /\ (ln.t \in {5, 7, 8, 9} => Len(ln.b) = SAddrLen(ln.t) + 2)   \* no data field
-SRecAddr(ln) == BE(SubSeq(ln.b, 2, 1 + SAddrLen(ln.t)))
+SRecAddr(ln) == BEsat(SubSeq(ln.b, 2, 1 + SAddrLen(ln.t)))
 SRecData(ln) == SubSeq(ln.b, 2 + SAddrLen(ln.t), Len(ln.b) - 1)
 SIsData(ln) == ln.k = "S" /\ ln.t \in {1, 2, 3}
 
@@ -173,8 +176,11 @@ LineShape(fmt, ln, o) ==
 
 BadLines(fmt, lines, o) == {i \in 1..Len(lines) : ~LineValid(fmt, lines[i], o, i = Len(lines))}
 
-\* ---- decoders: set of <<key, byte>>; key = line address * mul + index (mul = bytes per address unit) ------
-Pairs(addr, data, mul) == {<<addr * mul + i - 1, data[i]>> : i \in 1..Len(data)}
+\* ---- decoders -------------------------------------------------------------------------------------------
+\* A data line decodes to one "run" [a |-> key of its first byte, d |-> its data bytes]; key = line address * mul
+\* + index (mul = bytes per address unit of the format).  Decode = the set of <<key, byte>> of all runs.
+Run(a, d) == [a |-> a, d |-> d]
+Pairs(r) == {<<r.a + i - 1, r.d[i]>> : i \in 1..Len(r.d)}
 
 \* Intel: the base in force at line i (extended segment / linear address records honoured)
 \*   segment base: byte j goes to SBA*16 + ((offset + j) mod 64K);  linear: (ULBA*64K + offset + j)
@@ -184,32 +190,36 @@ IntelBases(lines) ==
                  nxt == IF ln.k = "I" /\ Len(ln.b) = 7 /\ ln.b[4] = 2
                           THEN [mode |-> "seg", base |-> (ln.b[5] * 256 + ln.b[6]) * 16]
                         ELSE IF ln.k = "I" /\ Len(ln.b) = 7 /\ ln.b[4] = 4
-                          THEN [mode |-> "lin", base |-> (ln.b[5] * 256 + ln.b[6]) * 65536]
+                          THEN [mode |-> "lin", base |-> MulSat(ln.b[5] * 256 + ln.b[6], 65536)]
                         ELSE cur
              IN Append(acc, nxt),
            <<>>, lines)
-IntelPairs(ln, st) ==
-  LET d == IData(ln) IN
-  IF st.mode = "seg" THEN {<<st.base + ((IAddr(ln) + i - 1) % 65536), d[i]>> : i \in 1..Len(d)}
-  ELSE {<<st.base + IAddr(ln) + i - 1, d[i]>> : i \in 1..Len(d)}
+\* a segment-mode line that crosses offset $FFFF wraps to the start of the segment: two runs
+IntelRuns(ln, st) ==
+  LET d == IData(ln)  a == IAddr(ln)  n == Len(d) IN
+  IF st.mode = "seg" /\ a + n > 65536
+  THEN {Run(st.base + a, SubSeq(d, 1, 65536 - a)), Run(st.base, SubSeq(d, 65536 - a + 1, n))}
+  ELSE {Run(st.base + a, d)}
 
 CBlocks(lines) == {ln.blk : ln \in {lines[i] : i \in {j \in 1..Len(lines) : lines[j].k = "CA"}}}
-CDef(lines, name, blk) == {BE(lines[i].v) : i \in {j \in 1..Len(lines) : lines[j].k = "CD" /\ lines[j].n = name /\ lines[j].blk = blk}}
+CDef(lines, name, blk) == {BEsat(lines[i].v) : i \in {j \in 1..Len(lines) : lines[j].k = "CD" /\ lines[j].n = name /\ lines[j].blk = blk}}
 CArr(lines, blk) == {lines[i].b : i \in {j \in 1..Len(lines) : lines[j].k = "CA" /\ lines[j].blk = blk}}
 
-Decode(fmt, lines, mul) ==
+Runs(fmt, lines, mul) ==
   LET N == Len(lines) IN
-  CASE fmt = "MOTO" -> UNION {Pairs(SRecAddr(lines[i]), SRecData(lines[i]), mul) : i \in {j \in 1..N : SIsData(lines[j])}}
+  CASE fmt = "MOTO" -> {Run(MulSat(SRecAddr(lines[i]), mul), SRecData(lines[i])) : i \in {j \in 1..N : SIsData(lines[j])}}
     [] fmt \in {"INTEL", "INTEL16", "INTEL32"} ->
          LET bs == IntelBases(lines) IN
-         UNION {IntelPairs(lines[i], bs[i]) : i \in {j \in 1..N : lines[j].k = "I" /\ Len(lines[j].b) >= 5 /\ lines[j].b[4] = 0}}
-    [] fmt = "MOS" -> UNION {Pairs(MAddr(lines[i]), MData(lines[i]), mul) : i \in {j \in 1..N : lines[j].k = "M" /\ MCount(lines[j]) > 0}}
-    [] fmt = "TEK" -> UNION {Pairs(TAddr(lines[i]), TData(lines[i]), mul) : i \in {j \in 1..N : lines[j].k = "T"}}
-    [] fmt = "ATMEL" -> UNION {{<<AAddr(lines[i]) * 2, lines[i].b[2]>>, <<AAddr(lines[i]) * 2 + 1, lines[i].b[1]>>} : i \in {j \in 1..N : lines[j].k = "A"}}
-    [] fmt = "C" -> UNION {UNION {UNION {Pairs(s, a, mul) : a \in CArr(lines, blk)} : s \in CDef(lines, "start", blk)} : blk \in CBlocks(lines)}
-    [] fmt = "DSK" -> UNION {UNION {{<<(BE(lines[i].a) + w - 1) * 2, lines[i].w[w][3]>>, <<(BE(lines[i].a) + w - 1) * 2 + 1, lines[i].w[w][2]>>}
-                                       : w \in 1..Len(lines[i].w)} : i \in {j \in 1..N : lines[j].k = "D"}}
+         UNION {IntelRuns(lines[i], bs[i]) : i \in {j \in 1..N : lines[j].k = "I" /\ Len(lines[j].b) >= 6 /\ lines[j].b[4] = 0}}
+    [] fmt = "MOS" -> {Run(MAddr(lines[i]) * mul, MData(lines[i])) : i \in {j \in 1..N : lines[j].k = "M" /\ MCount(lines[j]) > 0}}
+    [] fmt = "TEK" -> {Run(TAddr(lines[i]) * mul, TData(lines[i])) : i \in {j \in 1..N : lines[j].k = "T"}}
+    [] fmt = "ATMEL" -> {Run(AAddr(lines[i]) * 2, <<lines[i].b[2], lines[i].b[1]>>) : i \in {j \in 1..N : lines[j].k = "A"}}
+    [] fmt = "C" -> UNION {{Run(MulSat(st, mul), a) : st \in CDef(lines, "start", blk), a \in CArr(lines, blk)} : blk \in CBlocks(lines)}
+    [] fmt = "DSK" -> {Run(BE(lines[i].a) * 2, [j \in 1..(2 * Len(lines[i].w)) |-> lines[i].w[(j + 1) \div 2][IF j % 2 = 1 THEN 3 ELSE 2]])
+                         : i \in {j \in 1..N : lines[j].k = "D"}}
     [] OTHER -> {}
+
+Decode(fmt, lines, mul) == UNION {Pairs(r) : r \in Runs(fmt, lines, mul)}
 
 \* ================================================================================================
 \* Part 2: what must come out (declarative, from the manual)
@@ -255,11 +265,40 @@ FmtMaxKey(fmt, o) == CASE fmt \in {"INTEL", "MOS", "TEK"} -> 65535
                        [] OTHER -> BigAddr - 1
 \* the multiplier between line addresses and keys
 MulOf(c, fmt) == IF fmt \in {"INTEL", "INTEL16", "INTEL32", "ATMEL", "DSK"} THEN 1 ELSE SetMax(GranSet(c))
+TheGranOf(c) == CHOOSE g \in GranSet(c) : TRUE
+\* clipped unit range of picked record k and the keys it is written to
+ClipLo(c, k) == Max2(WinLo(c), RStart(c, k))
+ClipHi(c, k) == Min2(WinHi(c), RStart(c, k) + RUnits(c, k) - 1)
+KeyLo(c, k) == IF c.o.m < 2 THEN OutAddr(c, ClipLo(c, k)) * c.recs[k].gran ELSE OutAddr(c, ClipLo(c, k))
+KeyHi(c, k) == IF c.o.m < 2 THEN OutAddr(c, ClipHi(c, k)) * c.recs[k].gran + c.recs[k].gran - 1 ELSE OutAddr(c, ClipHi(c, k))
+Live(c) == {k \in Picked(c) : ClipLo(c, k) <= ClipHi(c, k)}
 Representable(c, fmt) ==
-  LET S == Selected(c)
-      top == IF fmt \in {"INTEL", "INTEL16", "INTEL32", "ATMEL", "DSK"} \/ FmtMaxKey(fmt, c.o) >= BigAddr - 1 THEN FmtMaxKey(fmt, c.o)
+  LET top == IF fmt \in {"INTEL", "INTEL16", "INTEL32", "ATMEL", "DSK"} \/ FmtMaxKey(fmt, c.o) >= BigAddr - 1 THEN FmtMaxKey(fmt, c.o)
              ELSE (FmtMaxKey(fmt, c.o) + 1) * MulOf(c, fmt) - 1
-  IN \A p \in S : p[1] >= 0 /\ p[1] <= top
+  IN \A k \in Live(c) : KeyLo(c, k) >= 0 /\ KeyHi(c, k) <= top
+
+\* ---- the same comparison without building the two sets (used on large inputs; TLC checks on the bounded model
+\*      that it is equivalent to Decode = Selected): every decoded byte is the selected byte of its key, and the
+\*      decoded keys cover as many keys as are selected
+SelKeys(c) == UNION {KeyLo(c, k)..KeyHi(c, k) : k \in Live(c)}
+SelCount(c) == Cardinality(SelKeys(c))
+\* per-case constants of the inverse mapping key -> selected byte
+SelCtx(c) == [G |-> TheGranOf(c), m |-> c.o.m, shift |-> (IF c.o.rel THEN WinLo(c) ELSE 0) - c.o.reloc,
+              live |-> {[k |-> k, lo |-> ClipLo(c, k), hi |-> ClipHi(c, k), s |-> RStart(c, k)] : k \in Live(c)}]
+SelByteAtX(c, x, key) ==
+  LET u == IF x.m < 2 THEN key \div x.G ELSE key
+      j == IF x.m < 2 THEN key % x.G ELSE x.m - 2
+      a == u + x.shift
+      ks == {e \in x.live : e.lo <= a /\ a <= e.hi}
+  IN IF ks = {} THEN -1
+     ELSE LET e == CHOOSE e \in ks : TRUE IN c.recs[e.k].data[(a - e.s) * x.G + (IF x.m = 1 THEN x.G - 1 - j ELSE j) + 1]
+SelByteAt(c, key) == SelByteAtX(c, SelCtx(c), key)
+RunWrongX(c, x, r) == {i \in 1..Len(r.d) : SelByteAtX(c, x, r.a + i - 1) # r.d[i]}
+RunWrong(c, r) == RunWrongX(c, SelCtx(c), r)
+DecodeMatches(c, runs) ==
+  LET x == SelCtx(c) IN
+  /\ \A r \in runs : \A i \in 1..Len(r.d) : SelByteAtX(c, x, r.a + i - 1) = r.d[i]
+  /\ Cardinality(UNION {r.a..(r.a + Len(r.d) - 1) : r \in runs}) = SelCount(c)
 
 \* the case has a definite outcome under the manual
 Definite(c) ==
@@ -267,11 +306,12 @@ Definite(c) ==
   /\ Cardinality(FmtSet(c)) = 1 /\ Cardinality(GranSet(c)) = 1
   /\ "NONE" \notin FmtSet(c)
   /\ \A k \in Picked(c) : Len(c.recs[k].data) > 0 /\ Len(c.recs[k].data) % c.recs[k].gran = 0
-  /\ \E k \in Picked(c) : Max2(WinLo(c), RStart(c, k)) <= Min2(WinHi(c), RStart(c, k) + RUnits(c, k) - 1)   \* something is selected
+  /\ Live(c) # {}                                      \* something is selected
   /\ (c.o.m >= 1 => \A k \in Picked(c) : c.recs[k].gran \in {2, 4} /\ FmtOf(c, k) \in {"INTEL", "INTEL16", "INTEL32"})
   /\ (c.o.m >= 2 => \A k \in Picked(c) : FmtOf(c, k) = "INTEL")     \* INHX8L/INHX8H are 8-bit formats
   /\ \A k \in Picked(c) : FmtOf(c, k) \in {"ATMEL", "DSK"} => c.recs[k].gran = 2
   /\ \A k \in Picked(c) : FmtOf(c, k) = "MICO8" => c.recs[k].gran = 4
+  /\ \A k1, k2 \in Live(c) : k1 # k2 => (ClipHi(c, k1) < ClipLo(c, k2) \/ ClipHi(c, k2) < ClipLo(c, k1))   \* no overlapping records
 TheFmt(c) == CHOOSE f \in FmtSet(c) : TRUE
 TheGran(c) == CHOOSE g \in GranSet(c) : TRUE
 
@@ -306,7 +346,7 @@ IntelStructure(c, fmt, lines) ==
                                   /\ \A i \in starts : lines[i].b[4] = 3 /\
                                        (e < 1048576 => (lines[i].b[5] * 256 + lines[i].b[6]) * 16 + lines[i].b[7] * 256 + lines[i].b[8] = e)
             [] OTHER -> /\ Cardinality(starts) = 1
-                        /\ \A i \in starts : lines[i].b[4] = 5 /\ (e < BigAddr => BE(SubSeq(lines[i].b, 5, 8)) = e)
+                        /\ \A i \in starts : lines[i].b[4] = 5 /\ (e < BigAddr => BEsat(SubSeq(lines[i].b, 5, 8)) = e)
 
 MosStructure(c, lines) ==
   LET N == Len(lines) IN
@@ -339,8 +379,6 @@ LineData(fmt, ln) ==
     [] OTHER -> 0
 MaxLineData(fmt, lines) == IF lines = <<>> THEN 0 ELSE SetMax({LineData(fmt, lines[i]) : i \in 1..Len(lines)})
 
-SomeOf(S, n) == IF Cardinality(S) <= n THEN S ELSE LET x == CHOOSE x \in S : \A y \in S : x[1] <= y[1] IN {x}
-
 \* the verdict the harness reports: all judgement is made here
 Verdict(c, lines) ==
   IF ~Definite(c) THEN [definite |-> FALSE, ok |-> TRUE]
@@ -349,16 +387,21 @@ Verdict(c, lines) ==
       bad == BadLines(fmt, lines, c.o)
       structOK == Structure(c, fmt, lines)
       rep == Representable(c, fmt)
-      structural == fmt \in {"DSK", "MICO8"}
-      sel == Selected(c)
       shaped == \A i \in 1..Len(lines) : LineShape(fmt, lines[i], c.o)
-      dec == IF shaped THEN Decode(fmt, lines, MulOf(c, fmt)) ELSE {}
-      decodeOK == ~rep \/ ~shaped \/ dec = sel
+      runs == IF shaped THEN Runs(fmt, lines, MulOf(c, fmt)) ELSE {}
+      decodeOK == ~rep \/ ~shaped \/ DecodeMatches(c, runs)
+      wrong == IF decodeOK THEN {} ELSE {r \in runs : RunWrong(c, r) # {}}
+      first == IF wrong = {} THEN <<>>
+               ELSE LET r == CHOOSE r \in wrong : \A q \in wrong : r.a <= q.a
+                        i == CHOOSE i \in RunWrong(c, r) : \A j \in RunWrong(c, r) : i <= j
+                    IN <<r.a + i - 1, r.d[i], SelByteAt(c, r.a + i - 1)>>
   IN [definite |-> TRUE, fmt |-> fmt, ok |-> bad = {} /\ structOK /\ decodeOK,
-      valid |-> bad = {}, badlines |-> SomeOf({<<i>> : i \in bad}, 1), nbad |-> Cardinality(bad),
+      valid |-> bad = {}, badlines |-> IF bad = {} THEN <<>> ELSE <<SetMin(bad)>>, nbad |-> Cardinality(bad),
       structure |-> structOK, representable |-> rep, decode |-> decodeOK,
-      missing |-> IF decodeOK THEN {} ELSE SomeOf(sel \ dec, 1), extra |-> IF decodeOK THEN {} ELSE SomeOf(dec \ sel, 1),
-      nsel |-> Cardinality(sel), maxline |-> MaxLineData(fmt, lines), nlines |-> Len(lines)]
+      \* first differing key: <<key, byte decoded, byte selected (-1: nothing selected there)>>; ncovered vs nsel
+      firstdiff |-> first,
+      ncovered |-> IF shaped THEN Cardinality(UNION {r.a..(r.a + Len(r.d) - 1) : r \in runs}) ELSE -1,
+      nsel |-> SelCount(c), maxline |-> MaxLineData(fmt, lines), nlines |-> Len(lines)]
 
 \* ================================================================================================
 \* Part 4: operational model of p2hex.c (one source file)
